@@ -133,6 +133,11 @@ Next ==
        [] e.op = "search" ->
             /\ LET f == JudgeSearch(e) IN f # {} => PrintT("FAIL|" \o ToString(l) \o "|" \o ToString(f))
             /\ UNCHANGED <<ti, vals, qi, qval, nodraws>>
+       [] e.op = "ttprobe" ->
+            \* an entry is found under its own hash and under no hash that differs from it in one bit
+            /\ LET f == IF Want("C11") THEN Chk("c11.lookup-misses-own-entry", e.own = 1) \cup Chk("c11.lookup-returns-entry-of-another-hash", e.other = <<>>) ELSE {}
+               IN f # {} => PrintT("FAIL|" \o ToString(l) \o "|" \o ToString(f))
+            /\ UNCHANGED <<ti, vals, qi, qval, nodraws>>
        [] e.op = "psearch" ->
             /\ LET f == JudgePonder(e) IN f # {} => PrintT("FAIL|" \o ToString(l) \o "|" \o ToString(f))
             /\ UNCHANGED <<ti, vals, qi, qval, nodraws>>
